@@ -1,6 +1,7 @@
 SPEC = {
-    "lean_modules": ["AM.Props.C01", "AM.Props.C07"],
+    "lean_modules": ["AM.Props.C01", "AM.Props.C07", "AM.Props.C14"],
     "theorems": [
+        "AM.PutOrder.group_holds_stored_version", "AM.PutOrder.split_put_reorders",
         "AM.Group.first_tick_le", "AM.Group.flush_gap_le", "AM.Group.stored_firing_is_flushed",
         "AM.Dedup.flushStep_fail_keeps_state", "AM.Dedup.cause_mono_tick", "AM.Dedup.failed_flush_keeps_obligation",
         "AM.Dedup.eligible_listed_or_recorded", "AM.Dedup.eligible_listed_within_bound", "AM.Dedup.latest_never_omits",
@@ -13,6 +14,8 @@ SPEC = {
         # "every integration of every receiver that the routing tree selects": the routing half of the property is the
         # C07 engine (real config.Load -> NewRoute -> Match against the documented rule), run here with fewer cases
         {"name": "route", "pkg": "./route", "search_cases": 20000, "quick_cases": 2500},
+        # store-and-publish atomicity of the provider: two real concurrent submitters, a dawdling PostStore callback
+        {"name": "putorder", "pkg": "./putorder", "timeout_quick": 120, "search_cases": 600},
     ],
     "rule": "random alert timelines (4 alerts in 2 groups: fire, heartbeat, explicit resolve, short time-outs, re-fire; silences created/expired) through the REAL mem.Alerts provider + Dispatcher + PipelineBuilder.New pipeline + nflog assembled as app/reloader.go does, under synctest virtual time; 1-2 integrations (send_resolved on/off) with scripted outcomes (ok / recoverable / unrecoverable / hang, latencies up to and beyond the flush deadline so that deliveries are in flight while alerts re-fire), log GC, dispatcher restarts (config reload); a recording stage observes every flush (tick, wall, alerts handed over, outcome, log entries); the driver predicts ticks, flush contents, sends, log entries, group deletion exactly (delivery instants are trace inputs) and evaluates the property predicates on the implementation's events; non-trivial = hits a tagged branch; distinct = distinct hash of the case's lines",
     "assumptions": [
